@@ -143,6 +143,106 @@ theorem debugUnmarked_sorted (h : Heap) : SortedB (debugUnmarked h) := by
   | nil => simp [SortedB]
   | cons x xs ih => exact insertSorted_sorted x _ ih
 
+/-! ## "Marked since the sweeper last passed over it", at the precision of the incremental sweeper.
+`marked_needs_two_sweeps` counts sweep calls; the statement below counts only the slices whose
+window actually COVERS the slot with the gate open — any number of other slices (closed gate, other
+windows, any work unit) may run in between. -/
+
+/-- this step is an open-gate sweep slice whose window contains slot `id` -/
+def coversB (h : Heap) (op : Op) (id : Nat) : Bool :=
+  match op with
+  | .sweep w => h.unmarked.isEmpty && decide ((sweepWindow h w).1 ≤ id) && decide (id < (sweepWindow h w).2.1)
+  | _ => false
+
+/-- number of covering slices met by slot `id` along a history -/
+def coverCount (id : Nat) : Heap → List Op → Nat
+  | _, [] => 0
+  | h, op :: ops => (if coversB h op id then 1 else 0) + coverCount id (step h op) ops
+
+theorem coversB_of_window (h : Heap) (op : Op) (id : Nat)
+    (hw : ∃ w, op = .sweep w ∧ h.unmarked = [] ∧ (sweepWindow h w).1 ≤ id ∧ id < (sweepWindow h w).2.1) :
+    coversB h op id = true := by
+  obtain ⟨w, hop, hu, h1, h2⟩ := hw
+  subst hop
+  simp [coversB, hu, h1, h2]
+
+/-- a readable handle stays readable under every step that is not a covering slice -/
+theorem read_step_uncovered (h : Heap) (hi : Inv h) (op : Op) (id : Nat) (s : Bytes)
+    (hr : read h (.ref id) = some s) (hc : coversB h op id = false) :
+    read (step h op) (.ref id) = some s := by
+  rcases read_stable_or_reclaimed h hi op (.ref id) s hr with h1 | ⟨_, w, id', hop, hp, _, hu, hw1, hw2⟩
+  · exact h1
+  · cases hp
+    rw [coversB_of_window h op id ⟨w, hop, hu, hw1, hw2⟩] at hc; cases hc
+
+theorem live_without_covering_sweep (ops : List Op) (h : Heap) (hi : Inv h) (hok : OpsOk h ops)
+    (id : Nat) (s : Bytes) (hr : read h (.ref id) = some s) (hc : coverCount id h ops = 0) :
+    read (run ops h) (.ref id) = some s := by
+  induction ops generalizing h with
+  | nil => exact hr
+  | cons op ops ih =>
+    simp only [run, List.foldl_cons]
+    simp only [coverCount] at hc
+    have hcb : coversB h op id = false := by
+      cases hb : coversB h op id with
+      | false => rfl
+      | true => simp [hb] at hc
+    exact ih (step h op) (inv_step hi op hok.1) hok.2 (read_step_uncovered h hi op id s hr hcb) (by omega)
+
+/-- a marked (or permanent) slot keeps its mark under every step that is not a covering slice -/
+theorem marked_step_uncovered (h : Heap) (hi : Inv h) (op : Op) (id : Nat) (s : Bytes)
+    (hm : h.slots[id]? = some (.temp s true) ∨ h.slots[id]? = some (.perm s))
+    (hc : coversB h op id = false) :
+    (step h op).slots[id]? = some (.temp s true) ∨ (step h op).slots[id]? = some (.perm s) := by
+  rcases hm with hm | hm
+  · obtain ⟨sl', hsl', hst, hwin⟩ := slot_step h hi op id _ hm
+    cases hst with
+    | same => left; exact hsl'
+    | promote t m => right; exact hsl'
+    | mark t m => left; exact hsl'
+    | unmark t =>
+      rw [coversB_of_window h op id (hwin (Or.inr ⟨s, rfl, rfl⟩))] at hc; cases hc
+  · obtain ⟨sl', hsl', hst, _⟩ := slot_step h hi op id _ hm
+    cases hst
+    right; exact hsl'
+
+/-- **C17 (c2), full strength for the incremental sweeper**: a string that is marked (or permanent)
+is still readable after ANY history in which at most one open-gate slice covers its slot — however
+many other slices, marks, allocations and closed-gate sweeps the history contains. -/
+theorem marked_needs_two_covering_sweeps (ops : List Op) (h : Heap) (hi : Inv h) (hok : OpsOk h ops)
+    (id : Nat) (s : Bytes) (hm : h.slots[id]? = some (.temp s true) ∨ h.slots[id]? = some (.perm s))
+    (hcount : coverCount id h ops ≤ 1) : read (run ops h) (.ref id) = some s := by
+  induction ops generalizing h with
+  | nil => rcases hm with hm | hm <;> simp [run, read, hm]
+  | cons op ops ih =>
+    simp only [run, List.foldl_cons]
+    have hi' := inv_step hi op hok.1
+    simp only [coverCount] at hcount
+    cases hb : coversB h op id with
+    | true =>
+      simp only [hb, if_true] at hcount
+      have hr : read (step h op) (.ref id) = some s := by
+        rcases hm with hm | hm
+        · exact marked_survives h hi op id s hm
+        · obtain ⟨sl', hsl', hst, _⟩ := slot_step h hi op id _ hm
+          cases hst; simp [read, hsl']
+      exact live_without_covering_sweep ops _ hi' hok.2 id s hr (by omega)
+    | false =>
+      simp only [hb] at hcount
+      exact ih (step h op) hi' hok.2 (marked_step_uncovered h hi op id s hm hb) (by simpa using hcount)
+
+/-- a sweep-count bound implies the covering bound: `marked_needs_two_sweeps` is a corollary shape -/
+theorem coverCount_le_sweepCount (id : Nat) (ops : List Op) (h : Heap) : coverCount id h ops ≤ sweepCount ops := by
+  induction ops generalizing h with
+  | nil => simp [coverCount, sweepCount]
+  | cons op ops ih =>
+    have := ih (step h op)
+    cases op <;> simp [coverCount, coversB, sweepCount, List.filter_cons, isSweep] at this ⊢ <;> (try split) <;> omega
+
+-- non-vacuity: three sweeps, only one of which covers slot 0 (window [0,1), then [1,2), then wraps to [0,1))
+example : coverCount 0 init [.allocString longA, .allocString longB, .mark (.ref 0), .sweep 1, .sweep 1] = 1 := by decide
+example : read (run [.allocString longA, .allocString longB, .mark (.ref 0), .sweep 1, .sweep 1]) (.ref 0) = some longA := by decide
+
 example : hLt (.inl [97]) (.inl [97, 0]) ∧ hLt (.inl [97, 0]) (.ref 0) ∧ hLt (.ref 0) (.ref 3) := by
   unfold hLt; decide
 example : SortedB (insertSorted [2] [[1], [3]]) := by
